@@ -40,6 +40,8 @@ _escape_piece = st.one_of(
     st.sampled_from(['\\"\\"\\"', '\\"\\"\\"\\"', '\\"\\"\\"\\"\\"', '\\"\\"\\"\\"\\"\\"\\"']),   # runs of quotes (a block string when printed as a description)
     st.builds(lambda h: "\\u" + h, st.text("0123456789abcdefABCDEF", min_size=4, max_size=4)),
     st.sampled_from(["\\u0041", "\\uD83D", "\\uDE00", "\\u0000", "\\uFFFF", "\\u000a", "\\u2028"]),
+    # an escaped backslash followed by what would be an escape if the backslash were not spoken for (Windows paths, regexes)
+    st.sampled_from(["\\\\n", "\\\\t", "\\\\u0041", "\\\\b", "\\\\/", "\\\\\\\\r", "\\\\f\\\\u00e9", "\\\\\\n"]),
 )
 _exotic_ok = st.sampled_from([c for c in EXOTIC if c >= " " and c not in "\ud83d"])
 
